@@ -11,6 +11,8 @@
 //   S:r:<where>            where = m (snapshot taken on the main thread) | w (on the worker thread)
 //   STRESS <recorder threads 1..> <histograms 1..> <values per thread> <paced snapshots>
 //            free-running stress round (real threads, no scheduler), see fn stress
+//   REGRACE <threads 2..> <fresh keys> <concurrent snapshots, 0 = snapshots only after the join>
+//            registration racing registration / update / snapshot, see fn regrace
 // stdout: one line per case: `ok` followed by one token per snapshot
 //   S<r>[<entry>|<entry>...]   entry = <c|g|h>,<namehex>,<knhex>=<vhex>;...,<unit idx|->,<deschex|->,<value>
 //   value = c<u64> | g<i64> | h<i64>/<i64>/...     (the order in which into_vec() / clear_with gave them)
@@ -337,6 +339,181 @@ fn stress(threads: usize, hists: usize, n: usize, snaps: usize) -> String {
     )
 }
 
+// sense-reversing spin barrier: releases all parties within a few hundred ns (std::sync::Barrier wakes
+// its waiters one futex at a time, which spreads the "simultaneous" first registrations apart)
+struct SpinBarrier {
+    n: usize,
+    count: std::sync::atomic::AtomicUsize,
+    gen: std::sync::atomic::AtomicUsize,
+}
+impl SpinBarrier {
+    fn new(n: usize) -> Self {
+        SpinBarrier { n, count: std::sync::atomic::AtomicUsize::new(0), gen: std::sync::atomic::AtomicUsize::new(0) }
+    }
+    fn wait(&self) {
+        use std::sync::atomic::Ordering::*;
+        let g = self.gen.load(Acquire);
+        if self.count.fetch_add(1, AcqRel) + 1 == self.n {
+            self.count.store(0, Relaxed);
+            self.gen.store(g.wrapping_add(1), Release);
+        } else {
+            let mut spins = 0u32;
+            while self.gen.load(Acquire) == g {
+                spins += 1;
+                if spins > 20_000 { std::thread::yield_now(); } else { std::hint::spin_loop(); }
+            }
+        }
+    }
+}
+
+// Registration race.  One DebuggingRecorder, `threads` threads each with the recorder installed
+// locally.  For every fresh key k = 0..keys (kind = k mod 3: counter, gauge, histogram; name "rr",
+// labels id=k and z=1) all threads are released together by a spin barrier and each one performs
+// the FIRST registration of that key as far as it can tell -- through Recorder::register_* with a
+// key built in its own way (owned / static / with_extra_labels / Arc strings, labels in its own
+// order) or, for thread 3, through the counter!/gauge!/histogram! macros -- and immediately updates
+// through the handle it was given: counter.increment(t+1), gauge.increment(t+1), histogram.record(
+// t*2^32 + k).  Because of the barrier all threads work on the same key at any time and a round is
+// complete (every update done) before the next begins.  With `csnaps` > 0 the main thread takes that
+// many snapshots while the rounds run (racing registration and updates); after the join final
+// snapshots are taken until the histograms stay empty.  Reported (verdict in vlib/c19.py):
+//   missing      keys without an entry in the final snapshot        order_bad  entries not in key order
+//   counters_bad / gauges_bad   final value != sum of the completed updates (T(T+1)/2)
+//   hist_lost / hist_dups / hist_invented   per recorded value over all snapshots
+//   regress      a counter seen lower than in an earlier snapshot, or above its final total
+//   prefix_missing   a key whose round had completed before a concurrent snapshot began, not listed by it
+fn regrace(threads: usize, keys: usize, csnaps: usize) -> String {
+    use std::sync::atomic::{AtomicUsize, Ordering};
+    static META: Metadata<'static> = Metadata::new("c19-regrace", Level::INFO, None);
+    let t0 = std::time::Instant::now();
+    let rec = DebuggingRecorder::new();
+    let snapper = rec.snapshotter();
+    let barrier = SpinBarrier::new(threads);
+    let progress = AtomicUsize::new(0); // rounds < progress are complete
+    let done = AtomicUsize::new(0);
+    let expect: u64 = (threads * (threads + 1) / 2) as u64;
+
+    // bookkeeping over all snapshots
+    let mut hist_counts: Vec<Vec<u8>> = vec![vec![0u8; threads]; keys]; // [k][t]
+    let mut last_counter: Vec<u64> = vec![0; keys];
+    let (mut dups, mut invented, mut regress, mut prefix_missing, mut snaps_during) = (0u64, 0u64, 0u64, 0u64, 0u64);
+    let mut examples: Vec<String> = Vec::new();
+    let mut ex2: Vec<String> = Vec::new();
+    // returns (listed key ids in order, final counter/gauge values seen in this snapshot, histogram values absorbed)
+    let mut absorb = |snap: Vec<(metrics_util::CompositeKey, Option<Unit>, Option<SharedString>, DebugValue)>,
+                      hist_counts: &mut Vec<Vec<u8>>, last_counter: &mut Vec<u64>|
+     -> (Vec<usize>, Vec<Option<f64>>, u64) {
+        let mut listed = Vec::with_capacity(snap.len());
+        let mut vals: Vec<Option<f64>> = vec![None; keys];
+        let mut got = 0u64;
+        for (ck, _, _, value) in snap {
+            let id: usize = ck.key().labels().find(|l| l.key() == "id").and_then(|l| l.value().parse().ok()).unwrap_or(usize::MAX);
+            if id >= keys { invented += 1; continue; }
+            listed.push(id);
+            match value {
+                DebugValue::Counter(c) => {
+                    if c < last_counter[id] || c > expect { regress += 1; if examples.len() < 4 { examples.push(format!("c{}:{}<{}", id, c, last_counter[id])); } }
+                    last_counter[id] = c;
+                    vals[id] = Some(c as f64);
+                }
+                DebugValue::Gauge(g) => vals[id] = Some(g.into_inner()),
+                DebugValue::Histogram(vs) => {
+                    for v in vs {
+                        got += 1;
+                        let f = v.into_inner();
+                        if !(f >= 0.0 && f.fract() == 0.0 && f < 9.0e15) { invented += 1; continue; }
+                        let x = f as u64;
+                        let (t, k) = ((x >> 32) as usize, (x & 0xffff_ffff) as usize);
+                        if t >= threads || k != id { invented += 1; continue; }
+                        if hist_counts[id][t] >= 1 { dups += 1; }
+                        hist_counts[id][t] = hist_counts[id][t].saturating_add(1);
+                    }
+                }
+            }
+        }
+        (listed, vals, got)
+    };
+
+    std::thread::scope(|sc| {
+        for t in 0..threads {
+            let (rec, barrier, progress, done) = (&rec, &barrier, &progress, &done);
+            sc.spawn(move || {
+                metrics::with_local_recorder(rec, || {
+                    for k in 0..keys {
+                        barrier.wait();
+                        if t == 0 { progress.store(k, Ordering::Release); }
+                        let id = k.to_string();
+                        let labels: Vec<(String, String)> = if t % 2 == 0 {
+                            vec![("id".to_string(), id.clone()), ("z".to_string(), "1".to_string())]
+                        } else {
+                            vec![("z".to_string(), "1".to_string()), ("id".to_string(), id.clone())]
+                        };
+                        let v = (t + 1) as u64;
+                        if t == 3 {
+                            // the macro path (what applications write)
+                            match k % 3 {
+                                0 => metrics::counter!("rr", "id" => id.clone(), "z" => "1").increment(v),
+                                1 => metrics::gauge!("rr", "id" => id.clone(), "z" => "1").increment(v as f64),
+                                _ => metrics::histogram!("rr", "id" => id.clone(), "z" => "1").record((((t as u64) << 32) + k as u64) as f64),
+                            }
+                        } else {
+                            let key = build_key([0u32, 4, 5][t % 3], "rr", &labels);
+                            match k % 3 {
+                                0 => metrics::with_recorder(|r| r.register_counter(&key, &META)).increment(v),
+                                1 => metrics::with_recorder(|r| r.register_gauge(&key, &META)).increment(v as f64),
+                                _ => metrics::with_recorder(|r| r.register_histogram(&key, &META)).record((((t as u64) << 32) + k as u64) as f64),
+                            }
+                        }
+                    }
+                    barrier.wait();
+                    if t == 0 { progress.store(keys, Ordering::Release); }
+                    done.fetch_add(1, Ordering::SeqCst);
+                })
+            });
+        }
+        for s in 1..=csnaps {
+            let want = keys * s / (csnaps + 1);
+            while progress.load(Ordering::Acquire) < want && done.load(Ordering::SeqCst) < threads { std::hint::spin_loop(); }
+            if done.load(Ordering::SeqCst) == threads { break; }
+            let complete = progress.load(Ordering::Acquire); // rounds < complete were finished before this snapshot began
+            snaps_during += 1;
+            let (listed, _, _) = absorb(snapper.snapshot().into_vec(), &mut hist_counts, &mut last_counter);
+            let mut present = vec![false; keys];
+            for id in &listed { present[*id] = true; }
+            for k in 0..complete { if !present[k] { prefix_missing += 1; if ex2.len() < 4 { ex2.push(format!("absent{}@{}", k, complete)); } } }
+        }
+    });
+    // everything has completed: final snapshots
+    let (listed, vals, _) = absorb(snapper.snapshot().into_vec(), &mut hist_counts, &mut last_counter);
+    let mut final_snaps = 1u64;
+    let mut never_empty = 0u64;
+    loop {
+        final_snaps += 1;
+        let (_, _, got) = absorb(snapper.snapshot().into_vec(), &mut hist_counts, &mut last_counter);
+        if got == 0 { break; }
+        if final_snaps >= 6 { never_empty = got; break; }
+    }
+    let mut present = vec![0u32; keys];
+    for id in &listed { present[*id] += 1; }
+    let missing = present.iter().filter(|c| **c == 0).count();
+    let listed_twice = present.iter().filter(|c| **c > 1).count();
+    let order_bad = listed.windows(2).filter(|w| w[0] >= w[1]).count();
+    let (mut counters_bad, mut gauges_bad, mut hist_lost) = (0u64, 0u64, 0u64);
+    for k in 0..keys {
+        match k % 3 {
+            0 => if vals[k] != Some(expect as f64) { counters_bad += 1; if ex2.len() < 4 { ex2.push(format!("c{}={:?}/{}", k, vals[k], expect)); } },
+            1 => if vals[k] != Some(expect as f64) { gauges_bad += 1; if ex2.len() < 4 { ex2.push(format!("g{}={:?}/{}", k, vals[k], expect)); } },
+            _ => { let l = hist_counts[k].iter().filter(|c| **c == 0).count() as u64; if l > 0 && ex2.len() < 4 { ex2.push(format!("h{}lost{}", k, l)); } hist_lost += l; }
+        }
+    }
+    format!(
+        "regrace threads={} keys={} csnaps={} snaps_during={} missing={} listed_twice={} order_bad={} counters_bad={} gauges_bad={} hist_values={} hist_lost={} hist_dups={} hist_invented={} regress={} prefix_missing={} never_empty={} final_snaps={} ms={} ex={}",
+        threads, keys, csnaps, snaps_during, missing, listed_twice, order_bad, counters_bad, gauges_bad,
+        (0..keys).filter(|k| k % 3 == 2).count() * threads, hist_lost, dups, invented, regress, prefix_missing, never_empty, final_snaps,
+        t0.elapsed().as_millis(), { let mut e = examples.clone(); e.extend(ex2.iter().cloned()); if e.is_empty() { "-".to_string() } else { e.join(",") } }
+    )
+}
+
 fn main() {
     std::panic::set_hook(Box::new(|_| {}));
     let stdin = std::io::stdin();
@@ -349,6 +526,12 @@ fn main() {
             let a: Vec<usize> = rest.split_whitespace().map(|x| x.parse().unwrap()).collect();
             let r = std::panic::catch_unwind(|| stress(a[0].max(1), a[1].max(1), a[2], a[3]));
             writeln!(w, "{}", r.unwrap_or_else(|e| format!("stress panic:{}", panic_text(e)))).unwrap();
+            continue;
+        }
+        if let Some(rest) = line.strip_prefix("REGRACE") {
+            let a: Vec<usize> = rest.split_whitespace().map(|x| x.parse().unwrap()).collect();
+            let r = std::panic::catch_unwind(|| regrace(a[0].max(2), a[1], a[2]));
+            writeln!(w, "{}", r.unwrap_or_else(|e| format!("regrace panic:{}", panic_text(e)))).unwrap();
             continue;
         }
         writeln!(w, "{}", run_case(&line)).unwrap();
